@@ -89,17 +89,39 @@ func mkKeys(K, L int, bits uint8) [][]byte {
 type model struct {
 	present []bool
 	val     [][]byte
+	old     [][][]byte // values the key had before (for classifying stale reads)
 }
 
 func newModel(K int) *model {
-	return &model{present: make([]bool, K), val: make([][]byte, K)}
+	return &model{present: make([]bool, K), val: make([][]byte, K), old: make([][][]byte, K)}
 }
 
 func (m *model) clone() *model {
 	c := newModel(len(m.present))
 	copy(c.present, m.present)
 	copy(c.val, m.val)
+	for i := range m.old {
+		c.old[i] = append([][]byte{}, m.old[i]...)
+	}
 	return c
+}
+
+// set records a new state of key i, remembering the previous value.
+func (m *model) set(i int, present bool, v []byte) {
+	if m.present[i] {
+		m.old[i] = append(m.old[i], m.val[i])
+	}
+	m.present[i] = present
+	m.val[i] = v
+}
+
+// isStale reports whether v is a value the key had earlier (a resurrected value).
+func (m *model) isStale(i int, v []byte) bool {
+	stale := false
+	for _, o := range m.old[i] {
+		stale = vrt.Or(stale, bytes.Equal(o, v))
+	}
+	return stale
 }
 
 // symValue draws a value of length 0..maxLen (nil and empty distinguished).
@@ -119,7 +141,7 @@ func checkKey(s *Store, keys [][]byte, m *model, i int, where string) {
 	vrt.Assert(err == nil, "get-no-error", "where", where)
 	vrt.Assert(found == m.present[i], "get-found-matches-model", "where", where, "want", m.present[i], "vlen", len(m.val[i]), "vnil", m.val[i] == nil)
 	if found && m.present[i] {
-		vrt.Assert(bytes.Equal(v, m.val[i]), "get-value-matches-model", "where", where)
+		vrt.Assert(bytes.Equal(v, m.val[i]), "get-value-matches-model", "where", where, "stale", m.isStale(i, v))
 	}
 	h, err := s.Has(keys[i])
 	vrt.Assert(err == nil, "has-no-error", "where", where)
@@ -194,8 +216,7 @@ func apiStep(s *Store, c vcfg, keys [][]byte, m *model, op int, where string) {
 			vrt.Assert(isKeyExists(err), "immutable-put-existing-key-fails", "where", where)
 		} else {
 			vrt.Assert(err == nil, "put-no-error", "where", where)
-			m.present[i] = true
-			m.val[i] = v
+			m.set(i, true, v)
 		}
 	case opGet:
 		checkKey(s, keys, m, vrt.Choose("key", len(keys)), where)
@@ -204,8 +225,7 @@ func apiStep(s *Store, c vcfg, keys [][]byte, m *model, op int, where string) {
 		ok, err := s.Remove(keys[i])
 		vrt.Assert(err == nil, "remove-no-error", "where", where)
 		vrt.Assert(ok == m.present[i], "remove-reports-presence", "where", where, "want", m.present[i])
-		m.present[i] = false
-		m.val[i] = nil
+		m.set(i, false, nil)
 	case opFlush:
 		vrt.Assert(s.Flush() == nil, "flush-no-error", "where", where)
 	case opIter:
